@@ -36,7 +36,7 @@ def _violations(prop: str, root: Optional[str]) -> Tuple[set, List[str]]:
     mod = importlib.import_module(f"rules.{prop.lower()}")
     ctx = Ctx(prop, "quick", root)
     mod.run(ctx)
-    bad = {(o.rule, o.construct) for o in ctx.rep.obs if not o.ok}
+    bad = {(o.rule, o.construct) for o in ctx.rep.obs if not o.ok and not o.undecided}
     return bad, list(ctx.rep.analysis_errors)
 
 
